@@ -8,7 +8,7 @@ use crate::json::J;
 use crate::libg;
 use crate::rng::Rng;
 use crate::runner::{CaseOut, CheckDef, Tier};
-use crate::syn::{self, SynErr, Tok};
+use crate::syn::{self, SynErr};
 use biodivine_hctl_model_checker::preprocessing::parser::{parse_extended_formula, parse_hctl_formula};
 use biodivine_hctl_model_checker::preprocessing::tokenizer::{try_tokenize_extended_formula, try_tokenize_formula};
 
